@@ -538,6 +538,16 @@ namespace bloch::compiler {
         if (actual.value == ValueType::Null) {
             return isClassRefType(expected) ? std::optional<int>(3) : std::nullopt;
         }
+        if (actual.isArrayLiteral) {
+            // an array literal fits an array parameter (its elements are checked where it is
+            // bound), a type parameter, or an untyped one - never a primitive or a class
+            bool expectedIsArray =
+                expected.className.size() >= 2 &&
+                expected.className.rfind("[]") == expected.className.size() - 2;
+            bool untyped = expected.className.empty() && expected.value == ValueType::Unknown;
+            return (expectedIsArray || expected.isTypeParam || untyped) ? std::optional<int>(0)
+                                                                        : std::nullopt;
+        }
 
         if (expected.className.empty()) {
             // a class reference or an array never converts to a primitive parameter
@@ -1374,6 +1384,11 @@ namespace bloch::compiler {
             return combine(ValueType::Unknown, "");
         if (dynamic_cast<NullLiteralExpression*>(expr))
             return combine(ValueType::Null, "");
+        if (dynamic_cast<ArrayLiteralExpression*>(expr)) {
+            TypeInfo t = combine(ValueType::Unknown, "");
+            t.isArrayLiteral = true;
+            return t;
+        }
         if (auto lit = dynamic_cast<LiteralExpression*>(expr))
             return combine(typeFromString(lit->literalType), "");
         if (auto var = dynamic_cast<VariableExpression*>(expr)) {
@@ -2328,6 +2343,7 @@ namespace bloch::compiler {
                 auto expected = params[i];
                 auto& arg = node.arguments[i];
                 auto actual = actualTypes[i];
+                rejectArrayLiteralInto(expected, arg.get(), arg->line, arg->column);
                 bool expectedIsArray =
                     expected.className.size() >= 2 &&
                     expected.className.rfind("[]") == expected.className.size() - 2;
